@@ -49,6 +49,7 @@ func main() {
 	ovf := flag.String("overlay", "", "")
 	shims := flag.String("shims", "/verif/vshim", "")
 	skipFiles := flag.String("skip", "", "comma separated base names to leave untouched")
+	vosPath := flag.String("vos", "", "if set: also redirect the os import to the effect-recording shim at this path")
 	flag.Parse()
 	skip := map[string]bool{}
 	for _, f := range strings.Split(*skipFiles, ",") {
@@ -83,7 +84,7 @@ func main() {
 			if prev, ok := ov["Replace"][path]; ok && prev != "" {
 				die("%s is already replaced by another overlay entry (%s)", path, prev)
 			}
-			changed := rewriteFile(p, f)
+			changed := rewriteFile(p, f, *vosPath != "")
 			if !changed {
 				continue
 			}
@@ -103,6 +104,9 @@ func main() {
 	}
 	for _, s := range []string{"vsched", "vsync", "vatomic"} {
 		ov["Replace"][filepath.Join(*repo, "lib/others/vshim", s, s+".go")] = filepath.Join(*shims, s, s+".go")
+	}
+	if *vosPath != "" {
+		ov["Replace"][filepath.Join(*repo, "lib/others/vshim/vos/vos.go")] = *vosPath
 	}
 	b, _ := json.MarshalIndent(ov, "", " ")
 	if err := os.WriteFile(*ovf, b, 0o644); err != nil {
@@ -183,7 +187,7 @@ func (r *rw) inst(fn string, elem types.Type) ast.Expr {
 	return &ast.IndexExpr{X: r.sch(fn), Index: r.typeExpr(elem)}
 }
 
-func rewriteFile(p *packages.Package, f *ast.File) bool {
+func rewriteFile(p *packages.Package, f *ast.File, vos bool) bool {
 	r := &rw{p: p, f: f, commHeads: map[ast.Stmt]bool{}}
 	changed := false
 	ast.Inspect(f, func(n ast.Node) bool {
@@ -208,6 +212,14 @@ func rewriteFile(p *packages.Package, f *ast.File) bool {
 				im.Name = ast.NewIdent("atomic")
 			}
 			changed = true
+		case "os":
+			if vos {
+				im.Path.Value = strconv.Quote(shimBase + "vos")
+				if im.Name == nil {
+					im.Name = ast.NewIdent("os")
+				}
+				changed = true
+			}
 		case "time":
 			r.timeName = "time"
 			if im.Name != nil {
